@@ -100,3 +100,29 @@ pub fn file_values(tier: Tier) -> Vec<(String, String)> {
     }
     inputs
 }
+
+/// Whole-file contents (JSON objects) around plural merging and repeated keys: shapes whose handling is spread
+/// over the loader, the code generator and the build helper.
+pub fn whole_files() -> Vec<(&'static str, String)> {
+    let v: Vec<(&'static str, &str)> = vec![
+        ("plural-empty-base", r#"{"_one": "a", "_other": "b"}"#),
+        ("ordinal-plural-empty-base", r#"{"_ordinal_one": "a", "_ordinal_other": "b"}"#),
+        ("plural-empty-base-in-group", r#"{"g": {"_one": "a", "_other": "b"}, "z": "z"}"#),
+        ("plural-base-not-an-identifier", r#"{"1_one": "a", "1_other": "b"}"#),
+        ("plural-base-with-dash", r#"{"a-b_one": "a", "a-b_other": "b {{ count }}"}"#),
+        ("plural-form-null", r#"{"x_one": null, "x_other": "y"}"#),
+        ("plural-other-null", r#"{"x_one": "y", "x_other": null}"#),
+        ("plural-all-forms-null", r#"{"items_one": null, "items_other": null, "z": "z"}"#),
+        ("plural-form-number", r#"{"x_one": 1, "x_other": "y"}"#),
+        ("plural-form-group", r#"{"x_one": {"a": "b"}, "x_other": "y"}"#),
+        ("plural-form-range", r#"{"x_one": [["a", 0], ["b"]], "x_other": "y"}"#),
+        ("duplicate-key-subkeys-with-fk-then-string", r#"{"a": {"sub": "$t(b)"}, "a": "text", "b": "x"}"#),
+        ("duplicate-plural-form-with-fk", r#"{"p_one": "$t(b)", "p_one": "one", "p_other": "o", "b": "x"}"#),
+        ("duplicate-nested-group-with-fk", r#"{"g": {"h": {"k": "$t(b)"}}, "g": {"h": 1}, "b": "x"}"#),
+        ("key-with-dash-interpolated", r#"{"a-b": "x {{ v }}", "z": "z"}"#),
+        ("key-with-dash-component-and-range", r#"{"a-b": "<b>x</b>", "c-d": [["x", 0], ["y {{ count }}"]], "e-f": {"g-h": "{{ v }}"}}"#),
+        ("key-empty", r#"{"": "v", "z": "z"}"#),
+        ("key-keyword", r#"{"fn": "v", "self": "w", "Self": "x", "crate": "y", "super": "z", "_": "u"}"#),
+    ];
+    v.into_iter().map(|(n, t)| (n, t.to_string())).collect()
+}
